@@ -194,6 +194,14 @@ def stepSer (m : Mode) (toks : List String) : String :=
     match parseSchema sch, parseHex hex with
     | some σ, some b => showOutcome (fun (r : Val × Nat) => showVal r.1 ++ " " ++ toString r.2) (de m σ b)
     | _, _ => "bad-op"
+  | ["deep", "QueryCondition", d] =>
+    match parseNatChars d.toList with
+    | some n =>
+      if n > 4000000 || (d.length > 1 && d.startsWith "0") then "bad-op"
+      else match deepDecode n with
+        | .ok _ => "ok"
+        | _ => "abort:stack-overflow"
+    | none => "bad-op"
   | ["tovec", k, hex] =>
     match parseConvKind k, parseHex hex with
     | some k, some b => showOutcome (fun vs => "[" ++ showVals vs ++ "]") (toVec m k b)
@@ -476,7 +484,7 @@ partial def loop (m : Mode) (hin hout : IO.FS.Stream) (st : DriverState) : IO Un
     let (st', out) :=
       match toks with
       | ["case", n] => (({} : DriverState), "case " ++ n)
-      | "enc" :: _ | "dec" :: _ | "tovec" :: _ => (st, stepSer m toks)
+      | "enc" :: _ | "dec" :: _ | "tovec" :: _ | "deep" :: _ => (st, stepSer m toks)
       | "kv" :: _ | "reopen" :: _ =>
         let (kv', o) := stepKv m st.kv toks
         ({ st with kv := kv' }, o)
